@@ -707,6 +707,10 @@ func (eng *Engine) VerifyLemma(name string) (res *UnitResult) {
 	fr := eng.newFrame(vc, nil, nil)
 	st := vc.rootState()
 	for _, u := range l.Uses {
+		if strings.HasPrefix(u, "fn:") {
+			vc.assume(eng.fnAxiom(vc, fr, u[3:], pkg, st))
+			continue
+		}
 		ul := eng.cs.Lemmas[u]
 		if ul == nil {
 			panic(bindErr("unknown lemma " + u))
@@ -736,4 +740,64 @@ func contractFiles(dir string) []string {
 func fileExists(p string) bool {
 	_, err := os.Stat(p)
 	return err == nil
+}
+
+// pureRepoFunc: an in-repo function under a verified (not trusted) contract whose parameters and
+// single result are values (no references): it may be used as a mathematical function in lemmas.
+func (eng *Engine) pureRepoFunc(name string, pkg *types.Package) (*ssa.Function, *FuncContract) {
+	for key, fc := range eng.cs.Funcs {
+		if fc.Kind != "func" || fc.Trusted || fc.Name != name {
+			continue
+		}
+		_ = key
+		fn := eng.findFunc(fc)
+		if fn == nil || fn.Signature.Results().Len() != 1 || len(fc.Modifies) > 0 || len(fc.Effects) > 0 {
+			continue
+		}
+		ok := true
+		for i := 0; i < fn.Signature.Params().Len(); i++ {
+			switch fn.Signature.Params().At(i).Type().Underlying().(type) {
+			case *types.Basic:
+			default:
+				ok = false
+			}
+		}
+		if ok {
+			return fn, fc
+		}
+	}
+	return nil, nil
+}
+
+// fnAxiom: forall params. ensures[result := fn(params)] — the contract of a verified, terminating,
+// panic-free function as an axiom about the mathematical function it computes.
+func (eng *Engine) fnAxiom(vc *VC, fr *Frame, name string, pkg *types.Package, st *State) string {
+	fn, fc := eng.pureRepoFunc(name, pkg)
+	if fn == nil {
+		panic(bindErr("use fn:" + name + ": no verified value-only function of that name"))
+	}
+	env := &Env{vc: vc, fr: fr, names: map[string]TV{}, bound: map[string]TV{}, st: st, old: st, pkg: fn.Pkg.Pkg}
+	var binders, args, sorts []string
+	for _, p := range fn.Params {
+		vc.nfresh++
+		bn := fmt.Sprintf("qv!%s_%d", sanitize(p.Name()), vc.nfresh)
+		binders = append(binders, fmt.Sprintf("(%s %s)", bn, vc.sortOf(p.Type())))
+		args = append(args, bn)
+		sorts = append(sorts, vc.sortOf(p.Type()))
+		env.names[p.Name()] = TV{term: bn, typ: p.Type()}
+	}
+	rt := fn.Signature.Results().At(0).Type()
+	fname := "fn_" + sanitize(name)
+	vc.decl("f:"+fname, fmt.Sprintf("(declare-fun %s (%s) %s)", fname, strings.Join(sorts, " "), vc.sortOf(rt)))
+	app := fmt.Sprintf("(%s %s)", fname, strings.Join(args, " "))
+	bindResults(env, fn, []string{app})
+	var conj []string
+	for _, c := range fc.Requires {
+		_ = c
+	}
+	for _, c := range fc.Ensures {
+		conj = append(conj, fr.evalClause(c, env, "ensures of "+name))
+	}
+	vc.note("contract of %s used as an axiom about the function it computes (needs its termination and panic-freedom obligations, proved in the same check)", name)
+	return fmt.Sprintf("(forall (%s) (! %s :pattern (%s)))", strings.Join(binders, " "), and(conj...), app)
 }
